@@ -2,7 +2,7 @@
    Statements only. *)
 From Coq Require Import NArith List Bool.
 From PV Require Import Spec.Cfg Model.Table Spec.NLR Validators.TableStruct Validators.TableComplete
-  Model.LRDriver Proofs.LRProofs Proofs.CompleteProofs Proofs.UnambigProofs.
+  Model.LRDriver Proofs.LRProofs Proofs.CompleteProofs Proofs.UnambigProofs Proofs.LRCompleteProofs.
 Import ListNotations.
 Local Open Scope N_scope.
 
@@ -66,8 +66,27 @@ Theorem C04_unambiguous :
 Proof. exact det_unambiguous. Qed.
 Print Assumptions C04_unambiguous.
 
-(* NOT PROVED (partial): that the LR *driver* (with the scanner) follows that unique run, and
-   that GLRParser returns exactly that tree; both are decided per generated case. *)
+(* part 3: the LR DRIVER accepts every sentence of such a grammar and returns its derivation
+   tree: if the scanner hands over the tokens of the sentence one by one (in every state that
+   has an action for the true next token, layout skipping succeeds and the scanner returns
+   exactly that token; at the end it returns STOP) the driver, given enough fuel, returns
+   LROk with a tree equal to the derivation up to the spans of interior nodes. *)
+Theorem C04_lr_complete :
+  forall g tb ann fst_tab nul_tab stop_id start skipws next_token pos0 t,
+    table_complete g tb ann fst_tab nul_tab stop_id = true ->
+    det_table tb = true ->
+    (exists pr0, get_prod g 0 = Some pr0 /\ rhs pr0 = [NT start]) ->
+    wf_tree g t -> root_sym g t = Some (NT start) ->
+    scan_ok tb skipws next_token stop_id pos0 (leaves t) ->
+    exists fuel t' rp lay tr,
+      lr_parse g tb skipws next_token stop_id true false fuel pos0 = LROk t' rp lay tr /\
+      shape t' = shape t.
+Proof. exact lr_driver_complete. Qed.
+Print Assumptions C04_lr_complete.
+
+(* NOT PROVED (partial): that the impl's scanner satisfies scan_ok for lexically unambiguous
+   inputs (C07 relates it to the documented order), and that GLRParser returns exactly that
+   tree; both are decided per generated case. *)
 
 (* non-vacuity: S' -> S ; S -> 'a'   with its 3-state table *)
 Definition g1 : grammar := [mkProd 0 [NT 1]; mkProd 1 [T 0]].
